@@ -135,6 +135,7 @@ type c13Scenario struct {
 	Clean            bool
 	RowFam, ColFam   string
 	ColSort, ColMod  string
+	Repeat           bool // tables: all copies of a row key fall into one cell (the same element arrives several times in a row)
 }
 
 func c13Gen(t *simrt.Tape, free bool) *c13Scenario {
@@ -308,6 +309,13 @@ func c13Gen(t *simrt.Tape, free bool) *c13Scenario {
 	}
 	if sc.Cmd == "table" || sc.Cmd == "heatmap" || sc.Cmd == "spark" {
 		sc.Cols = pick(t.WRange(2, 5))
+		if t.WBool(1, 3) {
+			// runs of one and the same (column, row) element, long enough to overtake other rows while they arrive
+			sc.Repeat = true
+			for i := range sc.Counts {
+				sc.Counts[i] = 1 + t.W(6)
+			}
+		}
 	}
 	return sc
 }
@@ -318,6 +326,9 @@ func (sc *c13Scenario) lines() []c3Line {
 		for c := 0; c < sc.Counts[i]; c++ {
 			if len(sc.Cols) > 0 {
 				col := sc.Cols[(i+c)%len(sc.Cols)]
+				if sc.Repeat {
+					col = sc.Cols[i%len(sc.Cols)]
+				}
 				out = append(out, c3Line{Raw: col + "\t" + k})
 			} else {
 				out = append(out, c3Line{Raw: k})
@@ -661,6 +672,12 @@ func init() {
 			}
 			return run{v: v, rows: rows, cols: cols, sortArg: sa}, true
 		}
+		// keyStart[i]: index of the first line of key i in sc.lines()
+		keyStart := make([]int, len(sc.Keys))
+		for i, acc := 0, 0; i < len(sc.Keys); i++ {
+			keyStart[i] = acc
+			acc += sc.Counts[i]
+		}
 		nVar := t.WRange(4, 6)
 		if len(sc.Keys) > 500 {
 			nVar = 3
@@ -684,6 +701,21 @@ func init() {
 				for k := nLines - 1; k > 0; k-- {
 					j := t.W(k + 1)
 					shuffle[k], shuffle[j] = shuffle[j], shuffle[k]
+				}
+				if t.WBool(1, 3) {
+					// grouped arrival (a sorted log): the copies of a key stay together, only the order of the keys changes - the
+					// last lines to arrive are then all the same element
+					first := map[int]int{}
+					for pos, li := range shuffle {
+						k := sort.SearchInts(keyStart, li+1) - 1
+						if _, ok := first[k]; !ok {
+							first[k] = pos
+						}
+					}
+					sort.SliceStable(shuffle, func(a, b int) bool {
+						ka, kb := sort.SearchInts(keyStart, shuffle[a]+1)-1, sort.SearchInts(keyStart, shuffle[b]+1)-1
+						return first[ka] < first[kb]
+					})
 				}
 			}
 			r, ok := exec(sortArg, v, shuffle)
